@@ -4,14 +4,15 @@ cd /verif
 tmp=$(mktemp -d /tmp/allseeded.XXXXXX)
 ls -d seeded/C*_* | xargs -n1 basename | xargs -P 4 -I{} sh -c '
   s={}; tmp='$tmp'
-  r=$(tools/try_seeded.sh $s quick 2>&1 | tail -2 | tr "\n" " ")
+  prop=$(python3 -c "import json,sys; print(json.load(open(sys.argv[1])).get(\"checked_by\", sys.argv[2]))" seeded/$s/meta.json $(echo $s | cut -d_ -f1))
+  r=$(tools/try_seeded.sh $s quick $prop 2>&1 | tail -2 | tr "\n" " ")
   case "$r" in
     *"exit=1"*) v="caught"; echo "$r" | grep -q "no-failing-input-found" && v="caught (no-failing-input-found)";;
     *"exit=0"*) v="NOT caught";;
     *"exit=3"*) v="does not apply to the current tree (neutralised by a fix commit)";;
     *) v="error: $r";;
   esac
-  echo "| $s | $(echo $s | cut -d_ -f1) | $v |" > $tmp/$s'
+  echo "| $s | $prop | $v |" > $tmp/$s'
 out=seeded/RESULTS.md
 echo "| change | property checked | result |" > $out
 echo "|---|---|---|" >> $out
